@@ -1,6 +1,8 @@
 """Witnesses of the findings recorded for C18 (ids as in findings_proposed/C18.txt / KNOWN_FINDINGS.txt): one minimal input per
 finding, run through the real reader and the downstream pipeline exactly as harness/c18.py does.  Each returns None when the
-property holds on the witness and a description of the failure otherwise (expected while the finding is open)."""
+property holds on the witness and a description of the failure otherwise (expected while the finding is open).
+The witnesses of defects repaired in the repository (`fixed:` entries) use _clean: reader outcome as documented and no exception
+anywhere downstream, under every configuration; they must pass."""
 import re
 from witnesses import witness
 
@@ -28,6 +30,18 @@ def _run(fmt, data, cfg=0, type_rx=".", site_rx="."):
     return None
 
 
+def _clean(fmt, data, cfg=0, expect="doc"):
+    """regression form: the whole property holds on the input (every configuration)"""
+    import c18run as R
+    r = R.run_input(fmt, data, cfg, seed=1, time_limit=120, full=True, observe=False)
+    if r["outcome"] != expect: return f"{fmt}: reader outcome {r['outcome']}, expected {expect}" + (f" ({r['read']['site']})" if r["read"] else "")
+    fl = R.failures(r)
+    if fl:
+        f = fl[0]
+        return f"{fmt}: stage {f['stage'].split('{')[0]} raised {f['type']} at {f['site'].split('<-')[0]}: {f['msg'][:80]}"
+    return None
+
+
 @witness("C18", "ruby-inactive-annotation")
 def _():
     return _run("imsc", TT % (b"", b'<body><div><p><span tts:ruby="container"><span tts:ruby="base">a</span><span tts:ruby="text" end="1s">b</span></span></p></div></body>'),
@@ -40,11 +54,13 @@ def _():
 
 @witness("C18", "vtt-empty-file")
 def _():
-    return _run("vtt", b"", 0, "AttributeError", r"^vtt/reader\.py:to_model$")
+    # fixed by repository commit 7ed55ac
+    return _clean("vtt", b"")
 
 @witness("C18", "vtt-cue-without-payload")
 def _():
-    return _run("vtt", VTT + b"\n", 0, "UnboundLocalError")
+    # fixed by repository commit 05a353c: first cue without payload, and a later one (must not re-read the previous cue's text)
+    return _clean("vtt", VTT + b"\n") or _clean("vtt", VTT) or _clean("vtt", VTT + b"x\n\n00:03.000 --> 00:04.000\n\n")
 
 @witness("C18", "vtt-rt-outside-ruby")
 def _():
@@ -102,11 +118,18 @@ def _():
 
 @witness("C18", "stl-bad-tcp")
 def _():
-    return _run("stl", _stl(dict(TCP=b"        "), [(0, 5)]), 1, "AttributeError", r"DataFile\.__init__")
+    # fixed by repository commit 9e84fe8
+    return _clean("stl", _stl(dict(TCP=b"        "), [(0, 5)]), 1) or _clean("stl", _stl(dict(TCP=b"0a000000"), [(0, 5)]), 3)
 
 @witness("C18", "stl-bad-mnr")
 def _():
-    return _run("stl", _stl(dict(MNR=b"xx"), [(0, 30)]), 2, "AttributeError", "get_max_row_count")
+    # fixed by repository commit 41b1329: the subtitle at 30 s is read, and one at 5 s is no longer dropped (start offset untouched)
+    import c18run as R
+    bad = _clean("stl", _stl(dict(MNR=b"xx"), [(0, 30)]), 2) or _clean("stl", _stl(dict(MNR=b"xx"), [(0, 5)]), 2)
+    if bad: return bad
+    d = R.read("stl", _stl(dict(MNR=b"xx"), [(0, 5)]), R.STL_CFGS[2])
+    n = sum(len(list(div)) for div in d.get_body())
+    if n != 1: return f"subtitle at 5 s dropped: {n} paragraphs"
 
 @witness("C18", "stl-zero-row-count")
 def _():
@@ -147,7 +170,8 @@ def _():
 
 @witness("C18", "lcd-bg-color-without-body")
 def _():
-    return _run("imsc", TT % (b"", b""), 0, "TypeError", "_apply_bg_color")
+    # fixed by repository commit a7b547e
+    return _clean("imsc", TT % (b"", b"")) or _clean("imsc", TT % (b"", b"<head/>"))
 
 @witness("C18", "lcd-position")
 def _():
